@@ -100,6 +100,7 @@ type hdrSnap struct {
 	prevars  map[string]Val // names as bound when the loop was entered (phis = incoming values)
 	keys     map[string]*writeShape
 	anything bool
+	exceptKeys []string // heaps bounded by the function frame in a loop with unknown-effect calls
 }
 
 func (in *inst) loopSpec(l *loopInfo) *LoopSpec {
@@ -691,11 +692,15 @@ func (in *inst) execInstr(n *vnode, st *State, ins ssa.Instruction) {
 		for _, e := range n.succs {
 			if e.succIdx == 0 {
 				e.cond = fv.def("edge", "Bool", and(st.reach, c.T))
+				fv.noteAnd(e.cond, st.reach)
+				fv.edgePos[e.cond] = in.posOf(x, n) + " then"
 				if isOk {
 					e.tagKey, e.tagVal = of.iface, of.tag
 				}
 			} else {
 				e.cond = fv.def("edge", "Bool", and(st.reach, not(c.T)))
+				fv.noteAnd(e.cond, st.reach)
+				fv.edgePos[e.cond] = in.posOf(x, n) + " else"
 				if isOk {
 					e.tagKey, e.tagVal = of.iface, -of.tag
 				}
@@ -1509,4 +1514,22 @@ func sliceOrigin(v ssa.Value) string {
 		return ""
 	}
 	return canonType(pt.Elem()) + "#" + st.Field(fa.Field).Name()
+}
+
+// posOf: source position of a branch (the nearest positioned instruction before it in its block).
+func (in *inst) posOf(x ssa.Instruction, n *vnode) string {
+	b := x.Block()
+	for i := len(b.Instrs) - 1; i >= 0; i-- {
+		if p := b.Instrs[i].Pos(); p.IsValid() {
+			ps := in.fv.eng.prog.Fset.Position(p)
+			return fmt.Sprintf("%s:%d (%s block %d)", strings.TrimPrefix(ps.Filename, in.fv.eng.repo+"/"), ps.Line, in.fn.Name(), b.Index)
+		}
+	}
+	if c, ok := x.(*ssa.If); ok {
+		if p := c.Cond.Pos(); p.IsValid() {
+			ps := in.fv.eng.prog.Fset.Position(p)
+			return fmt.Sprintf("%s:%d (%s block %d)", strings.TrimPrefix(ps.Filename, in.fv.eng.repo+"/"), ps.Line, in.fn.Name(), b.Index)
+		}
+	}
+	return fmt.Sprintf("(%s block %d)", in.fn.Name(), b.Index)
 }
